@@ -58,3 +58,188 @@ Qed.
 
 Lemma QInv_live_sentinel w X s : QInv w X -> live (w_h w) (qaddr s).
 Proof. intros I. eapply Ring_live; [apply (qi_ring _ _ I s)|left; reflexivity]. Qed.
+
+(* ------------------------------------------------------------------ values *)
+Lemma vget_vset_same m a v : a <> 0 -> vget (vset m a v) a = Some v.
+Proof. destruct a; [congruence|]. intros _. apply PositiveMap.gss. Qed.
+Lemma vget_vset_other m a b v : a <> b -> vget (vset m a v) b = vget m b.
+Proof. destruct a, b; simpl; intros; try reflexivity; try congruence. apply PositiveMap.gso. congruence. Qed.
+
+Lemma pairs_ext w w' l : (forall x, In x l -> val w' x = val w x) -> pairs w' l = pairs w l.
+Proof. intros H. unfold pairs. apply map_ext_in. intros x Hx. rewrite H; auto. Qed.
+
+Lemma pairs_app w l1 l2 : pairs w (l1 ++ l2) = pairs w l1 ++ pairs w l2.
+Proof. apply map_app. Qed.
+
+Lemma map_fst_pairs w l : map fst (pairs w l) = l.
+Proof. unfold pairs. rewrite map_map. simpl. apply map_id. Qed.
+
+Lemma addrs_abs w X : addrs (abs w X) = fst X ++ snd X.
+Proof. unfold addrs, abs. simpl. rewrite !map_fst_pairs. reflexivity. Qed.
+
+(* ------------------------------------------------------------------ the allocator *)
+Lemma ask_spec w mk : 
+  let '(w1, ok) := ask w mk in
+  w_h w1 = w_h w /\ w_val w1 = w_val w /\ w_fresh w1 = w_fresh w /\ w_qa w1 = w_qa w /\ w_qb w1 = w_qb w /\
+  w_trace w1 = mk ok :: w_trace w /\ (w_sched w = [] -> ok = true /\ w_sched w1 = []).
+Proof.
+  unfold ask. destruct (w_sched w) as [|b r]; simpl; repeat split; auto; discriminate.
+Qed.
+
+(* everything but the schedule and the trace is the same *)
+Definition same_core (w w1 : qworld) : Prop :=
+  w_h w1 = w_h w /\ w_val w1 = w_val w /\ w_fresh w1 = w_fresh w /\ w_qa w1 = w_qa w /\ w_qb w1 = w_qb w.
+
+Lemma same_core_QInv w w1 X : same_core w w1 -> QInv w X -> QInv w1 X.
+Proof.
+  intros (Hh & Hv & Hf & Ha & Hb) I.
+  assert (Hq : forall s, getq w1 s = getq w s) by (intros []; unfold getq; congruence).
+  assert (Hall : allnodes w1 X = allnodes w X) by (unfold allnodes, pools; congruence).
+  destruct I. constructor; rewrite ?Hall, ?Hh, ?Hv, ?Hf; auto; intros s; rewrite Hq; auto.
+Qed.
+
+Lemma same_core_abs w w1 X : same_core w w1 -> abs w1 X = abs w X.
+Proof.
+  intros (Hh & Hv & Hf & Ha & Hb). unfold abs. f_equal; apply pairs_ext; intros x _; unfold val; rewrite Hv; reflexivity.
+Qed.
+
+(* the schedule [] never refuses *)
+Definition no_fault (w : qworld) : Prop := w_sched w = [].
+
+(* ------------------------------------------------------------------ a_que_new_ *)
+Record QMidNew (w1 : qworld) (X : list id * list id) (s : bool) (n : id) : Prop := {
+  mn_ring : forall t, Ring (w_h w1) (qaddr t :: sel t X);
+  mn_nodup : NoDup (n :: allnodes w1 X);
+  mn_node : forall x, In x (n :: allnodes w1 X) ->
+              3 <= x < w_fresh w1 /\ live (w_h w1) x /\ vget (w_val w1) x <> None;
+  mn_num_s : q_num (getq w1 s) = N.of_nat (length (sel s X)) + 1;
+  mn_num_o : q_num (getq w1 (negb s)) = N.of_nat (length (sel (negb s) X));
+  mn_mem : forall t, N.of_nat (length (q_pool (getq w1 t))) <= q_mem (getq w1 t);
+  mn_fresh : N.of_nat (length (n :: allnodes w1 X)) + 3 <= w_fresh w1 }.
+
+Lemma getq_sel w s : getq w s = sel s (w_qa w, w_qb w).
+Proof. destruct s; reflexivity. Qed.
+
+Lemma pools_setq w s q : pools (setq w s q) = sel s (q_pool q ++ q_pool (w_qb w), q_pool (w_qa w) ++ q_pool q).
+Proof. destruct s; reflexivity. Qed.
+
+Lemma new_spec w X s :
+  QInv w X ->
+  exists w1 n, q_new_ w s = Ok (w1, n) /\
+    ((n = 0 /\ same_core w w1 /\ failed w1 = true /\ w_sched w <> []) \/
+     (n <> 0 /\ QMidNew w1 X s n /\ (forall x, x <> n -> val w1 x = val w x) /\
+      (failed w1 = failed w) /\ (no_fault w -> no_fault w1))).
+Proof.
+  intros I. unfold q_new_.
+  destruct (q_pool (getq w s)) as [|n rest] eqn:Hp.
+  - (* nothing to recycle: ask the allocator *)
+    pose proof (ask_spec w (RNode (16 + q_siz (getq w s)))) as A.
+    destruct (ask w (RNode (16 + q_siz (getq w s)))) as [w1 ok].
+    destruct A as (Hh & Hv & Hf & Ha & Hb & Ht & Hs).
+    destruct ok.
+    + eexists _, _. split; [reflexivity|]. right.
+      set (n := w_fresh w1).
+      assert (Hn3 : 3 <= n).
+      { unfold n. rewrite Hf. pose proof (qi_fresh _ _ I). lia. }
+      assert (Hnz : n <> 0) by lia.
+      assert (Hq : forall t, q_pool (getq (setq (mkW (dset (w_h w1) n (mkD 0 0)) (vset (w_val w1) n 0%Z) (n + 1)
+                     (w_qa w1) (w_qb w1) (w_sched w1) (w_trace w1)) s
+                     (mkQ [] (q_siz (getq w s)) (q_num (getq w s) + 1) (q_mem (getq w s)))) t)
+                   = q_pool (getq w t)).
+      { intros t. destruct s, t; simpl; unfold getq in *; rewrite ?Ha, ?Hb; auto. }
+      assert (Hall : forall Y, allnodes (setq (mkW (dset (w_h w1) n (mkD 0 0)) (vset (w_val w1) n 0%Z) (n + 1)
+                     (w_qa w1) (w_qb w1) (w_sched w1) (w_trace w1)) s
+                     (mkQ [] (q_siz (getq w s)) (q_num (getq w s) + 1) (q_mem (getq w s)))) Y = allnodes w Y).
+      { intros Y. unfold allnodes, pools. f_equal. f_equal.
+        destruct s; simpl; unfold getq in *; rewrite ?Ha, ?Hb; simpl in *; rewrite ?Hp; auto. }
+      assert (Hnew : forall x, In x (allnodes w X) -> x <> n).
+      { intros x Hx. pose proof (qi_node _ _ I x Hx) as (B & _). unfold n. rewrite Hf. lia. }
+      split; [exact Hnz|]. split; [|split; [|split]].
+      * constructor; rewrite ?Hall.
+        -- intros t. destruct s; simpl; rewrite Hh.
+           ++ eapply Ring_Frame; [apply (qi_ring _ _ I t)| |].
+              ** intros x Hx. apply dget_dset_other. intros E. apply Hx. left. exact E.
+              ** intros x Hx [E|[]]. subst x. destruct Hx as [E|Hx].
+                 --- destruct t; simpl in E; lia.
+                 --- apply (Hnew n); auto. eapply allnodes_sel; eauto.
+           ++ eapply Ring_Frame; [apply (qi_ring _ _ I t)| |].
+              ** intros x Hx. apply dget_dset_other. intros E. apply Hx. left. exact E.
+              ** intros x Hx [E|[]]. subst x. destruct Hx as [E|Hx].
+                 --- destruct t; simpl in E; lia.
+                 --- apply (Hnew n); auto. eapply allnodes_sel; eauto.
+        -- constructor; [|apply (qi_nodup _ _ I)]. intros H. apply (Hnew n H). reflexivity.
+        -- intros x Hx.
+           assert (Hfr : w_fresh (setq (mkW (dset (w_h w1) n (mkD 0 0)) (vset (w_val w1) n 0%Z) (n + 1)
+                     (w_qa w1) (w_qb w1) (w_sched w1) (w_trace w1)) s
+                     (mkQ [] (q_siz (getq w s)) (q_num (getq w s) + 1) (q_mem (getq w s)))) = n + 1)
+             by (destruct s; reflexivity).
+           assert (Hhp : w_h (setq (mkW (dset (w_h w1) n (mkD 0 0)) (vset (w_val w1) n 0%Z) (n + 1)
+                     (w_qa w1) (w_qb w1) (w_sched w1) (w_trace w1)) s
+                     (mkQ [] (q_siz (getq w s)) (q_num (getq w s) + 1) (q_mem (getq w s)))) = dset (w_h w1) n (mkD 0 0))
+             by (destruct s; reflexivity).
+           assert (Hvl : w_val (setq (mkW (dset (w_h w1) n (mkD 0 0)) (vset (w_val w1) n 0%Z) (n + 1)
+                     (w_qa w1) (w_qb w1) (w_sched w1) (w_trace w1)) s
+                     (mkQ [] (q_siz (getq w s)) (q_num (getq w s) + 1) (q_mem (getq w s)))) = vset (w_val w1) n 0%Z)
+             by (destruct s; reflexivity).
+           rewrite Hfr, Hhp, Hvl. destruct Hx as [<-|Hx].
+           ++ split; [lia|]. split.
+              ** exists (mkD 0 0). apply dget_dset_same. exact Hnz.
+              ** rewrite vget_vset_same by exact Hnz. discriminate.
+           ++ pose proof (qi_node _ _ I x Hx) as (B & L & V). pose proof (Hnew x Hx) as Hne.
+              split; [unfold n in *; rewrite Hf in *; lia|]. split.
+              ** destruct L as [d Hd]. exists d. rewrite dget_dset_other by congruence. rewrite Hh. exact Hd.
+              ** rewrite vget_vset_other by congruence. rewrite Hv. exact V.
+        -- rewrite getq_setq_same. simpl. rewrite (qi_num _ _ I s). reflexivity.
+        -- rewrite getq_setq_other. rewrite <- (qi_num _ _ I (negb s)).
+           destruct s; simpl; unfold getq; simpl; congruence.
+        -- intros t. destruct (bool_cases s t) as [->| ->].
+           ++ rewrite getq_setq_same. simpl. lia.
+           ++ rewrite getq_setq_other. pose proof (qi_mem _ _ I (negb s)) as M.
+              destruct s; simpl in *; unfold getq in *; simpl in *; rewrite ?Ha, ?Hb; exact M.
+        -- assert (Hfr : w_fresh (setq (mkW (dset (w_h w1) n (mkD 0 0)) (vset (w_val w1) n 0%Z) (n + 1)
+                     (w_qa w1) (w_qb w1) (w_sched w1) (w_trace w1)) s
+                     (mkQ [] (q_siz (getq w s)) (q_num (getq w s) + 1) (q_mem (getq w s)))) = n + 1)
+             by (destruct s; reflexivity).
+           rewrite Hfr. pose proof (qi_fresh _ _ I). unfold n. rewrite Hf. simpl length. lia.
+      * intros x Hx. unfold val.
+        assert (Hvl : w_val (setq (mkW (dset (w_h w1) n (mkD 0 0)) (vset (w_val w1) n 0%Z) (n + 1)
+                     (w_qa w1) (w_qb w1) (w_sched w1) (w_trace w1)) s
+                     (mkQ [] (q_siz (getq w s)) (q_num (getq w s) + 1) (q_mem (getq w s)))) = vset (w_val w1) n 0%Z)
+             by (destruct s; reflexivity).
+        rewrite Hvl, vget_vset_other by congruence. rewrite Hv. reflexivity.
+      * unfold failed. destruct s; simpl; rewrite Ht; reflexivity.
+      * unfold no_fault. intros Hs0. destruct (Hs Hs0) as [_ Hs1]. destruct s; simpl; exact Hs1.
+    + eexists _, _. split; [reflexivity|]. left. split; [reflexivity|]. split; [|split].
+      * unfold same_core. auto.
+      * unfold failed. rewrite Ht. reflexivity.
+      * intros Hs0. destruct (Hs Hs0). discriminate.
+  - (* recycle the top of the pool *)
+    pose proof (qi_mem _ _ I s) as M. rewrite Hp in M.
+    replace (N.ltb (q_mem (getq w s)) (N.of_nat (length (n :: rest)))) with false
+      by (symmetry; apply N.ltb_ge; exact M).
+    eexists _, _. split; [reflexivity|]. right.
+    assert (Hn : In n (allnodes w X)) by (eapply allnodes_pool; rewrite Hp; left; reflexivity).
+    pose proof (qi_node _ _ I n Hn) as (Bn & Ln & Vn).
+    assert (Hnz : n <> 0) by lia.
+    set (w1 := setq w s (mkQ rest (q_siz (getq w s)) (q_num (getq w s) + 1) (q_mem (getq w s)))).
+    assert (Hh : w_h w1 = w_h w) by (destruct s; reflexivity).
+    assert (Hv : w_val w1 = w_val w) by (destruct s; reflexivity).
+    assert (Hf : w_fresh w1 = w_fresh w) by (destruct s; reflexivity).
+    assert (Hperm : Permutation (n :: allnodes w1 X) (allnodes w X)).
+    { unfold allnodes. unfold w1. rewrite pools_setq. unfold pools.
+      destruct s; simpl in *; unfold getq in Hp; simpl in Hp; rewrite Hp; perm_app. }
+    split; [exact Hnz|]. split; [|split; [|split]].
+    + constructor; rewrite ?Hh, ?Hv, ?Hf.
+      * apply (qi_ring _ _ I).
+      * eapply Permutation_NoDup; [symmetry; exact Hperm|apply (qi_nodup _ _ I)].
+      * intros x Hx. apply (qi_node _ _ I). eapply Permutation_in; eauto.
+      * unfold w1. rewrite getq_setq_same. simpl. rewrite (qi_num _ _ I s). reflexivity.
+      * unfold w1. rewrite getq_setq_other. apply (qi_num _ _ I).
+      * intros t. destruct (bool_cases s t) as [->| ->]; unfold w1.
+        -- rewrite getq_setq_same. simpl. simpl in M. lia.
+        -- rewrite getq_setq_other. apply (qi_mem _ _ I).
+      * rewrite (Permutation_length Hperm). apply (qi_fresh _ _ I).
+    + intros x _. unfold val. rewrite Hv. reflexivity.
+    + unfold failed, w1. destruct s; reflexivity.
+    + unfold no_fault, w1. destruct s; simpl; auto.
+Qed.
